@@ -21,6 +21,7 @@ EXPLANATION = (
     "SAFE_BINARY_INVERSES[<product op>]. R11.4: in two-operand product rules the adjoint paired with operand x is the product of the "
     "incoming adjoint and the OTHER operand (never x itself); in sum rules both operands receive the incoming adjoint. R11.5: "
     "adjoint_cat slices [start, start + size_i) and advances start by that same size_i. NOT decided: numerical equality with the derivative."
+    " Added since: R11.5 also checks the roles of Cat's two names; R11.6 Number/Tensor branches of Slice substitution agree; R11.7/R11.8 logaddexp/sample/logsumexp/log-einsum and the safe ops are exact at -inf / NaN-free (shared with C15)."
 )
 ASSUMPTIONS = ["op tables truthful (C15)", "term constructor fields as in the catalogue"]
 RULE_TEXT = "one obligation per adjoint registration, per tape protocol clause, per seed/accumulator role, per returned (operand, adjoint) pair"
